@@ -57,7 +57,7 @@ fn family_uo_small() -> Vec<(Kind, usize)> {
 }
 
 fn merge_scripts() -> Vec<ChildSpec> {
-    vec![s("I"), s("P"), s(""), s("IP"), s("PI"), s("II"), s("w"), s("I!")]
+    vec![s("I"), s("P"), s(""), s("IP"), s("PI"), s("II"), s("w"), s("I!"), s("JP"), s("J")]
 }
 
 /// family M: (kind, prefilled source scripts)
@@ -69,6 +69,8 @@ fn family_m() -> Vec<(Kind, Vec<ChildSpec>)> {
         (Kind::Mb(2), vec![s("P"), s("II")]),
         (Kind::Mb(3), vec![s("IPI"), s(""), s("P")]),
         (Kind::Mb(2), vec![s("I!"), s("P!")]),
+        (Kind::Mb(2), vec![s("JPJ"), s("P")]),
+        (Kind::Mb(3), vec![s("JJ"), s("PJ"), s("J")]),
         (Kind::Mu(2), vec![s("!"), s("PI!")]),
         (Kind::Mu(0), vec![]),
         (Kind::Mu(2), vec![s("IP"), s("PI")]),
@@ -447,8 +449,11 @@ pub fn scenarios(prop: &str, tier: &str) -> Vec<Cfg> {
                 c.prefill = (0..pre).map(|_| f(Mode::Gate)).collect();
                 c.specs = vec![f(Mode::Gate), f(Mode::WakeReady), f(Mode::Relay), f(Mode::Yield1), f(Mode::PanicOnce)];
                 c.ops = ops::PUSH | ops::POLL | ops::POLL_NEW | ops::COMPLETE | ops::STALE_WAKE | ops::WAKE;
-                c.costly = ops::WAKE | ops::POLL_NEW;
-                c.delta = 1;
+                if k.is_ordered() {
+                    c.ops |= ops::PUSH_FRONT;
+                }
+                c.costly = ops::WAKE | ops::POLL_NEW | ops::PUSH;
+                c.delta = 2;
                 c.depth = d;
                 c.epilogue = Epilogue::Drain;
                 v.push(c);
@@ -626,10 +631,10 @@ pub fn scenarios(prop: &str, tier: &str) -> Vec<Cfg> {
                 let mut c = Cfg::new("C06", k);
                 c.name = format!("{:?} with a panicking child", k);
                 if k.is_join() {
-                    c.prefill = vec![f(Mode::PanicOnce), f(Mode::Gate)];
+                    c.prefill = vec![f(Mode::PanicOnce), f(Mode::Gate), f(Mode::DropPanic)];
                     c.ops = ops::POLL | ops::COMPLETE;
                 } else {
-                    c.specs = vec![f(Mode::PanicOnce), f(Mode::Gate), f(Mode::Ready)];
+                    c.specs = vec![f(Mode::PanicOnce), f(Mode::Gate), f(Mode::Ready), f(Mode::DropPanic)];
                     c.ops = ops::PUSH | ops::POLL | ops::COMPLETE;
                 }
                 c.depth = d;
@@ -643,6 +648,24 @@ pub fn scenarios(prop: &str, tier: &str) -> Vec<Cfg> {
             for mut c in join_cfgs("C07", n, 2 * n + 3, 2, Epilogue::Drain) {
                 c.delta = 1;
                 v.push(c);
+            }
+            // an input whose destructor panics after it has resolved (the caller catches the unwinding
+            // and carries on): whatever the combinator does then, it must not hand out foreign values
+            for n in 1..=3usize {
+                for bad in 0..n {
+                    for others in [Mode::Gate, Mode::Ready] {
+                        for kind in [Kind::Ja(n), Kind::Tja(n)] {
+                            let mut c = Cfg::new("C07", kind);
+                            c.name = format!("{:?} input {} has a panicking destructor, others {:?}", kind, bad, others);
+                            c.prefill = (0..n).map(|i| f(if i == bad { Mode::DropPanic } else { others })).collect();
+                            c.ops = ops::POLL | ops::COMPLETE;
+                            c.depth = 2 * n + 3;
+                            c.post_ready_polls = 2;
+                            c.epilogue = Epilogue::Drain;
+                            v.push(c);
+                        }
+                    }
+                }
             }
             // many inputs (at and around the per-poll budget and the first group size)
             for nn in [32usize, 33, 60, 61, 62, 122, 123] {
@@ -675,12 +698,17 @@ pub fn scenarios(prop: &str, tier: &str) -> Vec<Cfg> {
         // ------------------------------------------------------------------------------------ C08
         "C08" => {
             let d = if thorough { 8 } else { 6 };
-            for (k, pre) in family_uo_small().into_iter().chain([(Kind::FuCap(1), 3), (Kind::FoCap(1), 3), (Kind::FuCap(1), 7)]) {
+            for (k, pre) in family_uo_small().into_iter().chain([(Kind::FuCap(1), 3), (Kind::FoCap(1), 3), (Kind::FuCap(1), 7), (Kind::Fob(4), 0), (Kind::FoCap(2), 0)]) {
                 let mut c = Cfg::new("C08", k);
                 c.name = format!("{:?} prefill {}", k, pre);
                 c.prefill = (0..pre).map(|_| f(Mode::Gate)).collect();
                 c.specs = vec![f(Mode::Gate), f(Mode::Ready), f(Mode::Yield1)];
                 c.ops = ops::PUSH | ops::POLL | ops::COMPLETE | ops::MOVE;
+                if k.is_ordered() {
+                    // push_front drives the position counters below their start: the re-basing path
+                    // touches every held future
+                    c.ops |= ops::PUSH_FRONT | ops::EXTEND;
+                }
                 c.costly = 0;
                 c.depth = d;
                 c.epilogue = Epilogue::Drain;
@@ -874,6 +902,9 @@ pub fn scenarios(prop: &str, tier: &str) -> Vec<Cfg> {
                 c.prefill = (0..pre).map(|_| f(Mode::Gate)).collect();
                 c.specs = vec![f(Mode::Gate), f(Mode::Ready), f(Mode::Yield1)];
                 c.ops = ops::PUSH | ops::POLL | ops::POLL_NEW | ops::COMPLETE | ops::WAKE | ops::STALE_WAKE;
+                if k.is_ordered() {
+                    c.ops |= ops::PUSH_FRONT;
+                }
                 c.costly = ops::PUSH | ops::POLL_NEW;
                 c.delta = 2;
                 c.depth = d;
